@@ -346,6 +346,33 @@ def gen_base_event(rng):
 # --------------------------------------------------------------------------
 # the capture buffer as a dimension: real printing allowed (PrintingStringIO) through each public switch
 
+def uses_before(case):
+    return any(op.get("before") is not None for op in case["ops"])
+
+
+def gen_before_case(rng):
+    """histories in which run() is given BOTH inputs= and before=<code that reads / writes>: the inputs are queued
+    before the `before` code runs (it reads them first), with stale / empty queues in front"""
+    case = gen_case(rng, allow_callable=False, max_ops=5)
+    runs = [op for op in case["ops"] if op["k"] == "exec" and op["kind"] == "run"]
+    if not runs:
+        op = gen_exec(rng, allow_callable=False)
+        op["kind"] = "run"
+        case["ops"].insert(rng.randint(0, len(case["ops"])), op)
+        runs = [op]
+    for op in runs:
+        if rng.random() < 0.75:
+            op["before"] = [rng.choice([["r", gen_text(rng, rich=False)], ["r0"], ["r0"], ["w", gen_text(rng)],
+                                        ["p", [gen_value(rng)], " ", "\n"]]) for _ in range(rng.randint(1, 3))]
+            r = rng.random()
+            if r < 0.7:
+                op["pre"] = ["many", [gen_value(rng) for _ in range(rng.randint(1, 4))]] if r < 0.5 else \
+                    ["one", gen_value(rng)]
+            if not any(e[0] in ("r", "r0") for e in op["events"]) and rng.random() < 0.7:
+                op["events"] = list(op["events"]) + [["r0"]]
+    return case
+
+
 def uses_tee(case):
     return bool(case.get("tee0")) or any(op.get("tee") or op.get("via") or op.get("real_io") is not None
                                          for op in case["ops"])
@@ -646,6 +673,8 @@ def _run_real(case):
                     with _real_input(op["real_io"]):
                         sb.run(_run_source(op), filename=fname, real_io=True, **kw)
                 elif op["kind"] == "run":
+                    if op.get("before") is not None:        # run(..., before=<code>): an execution of its own, FIRST
+                        kw["before"] = _run_source({"events": op["before"], "raises": False})
                     commands.run(_run_source(op), filename=fname, **kw)
                 elif op["kind"] == "call":
                     if op["raises"]:
@@ -781,6 +810,16 @@ def flat_ops(case, view="oracle"):
                     raise ValueError(e)
         flat = dict(op)
         flat["events"] = evs
+        if op.get("before") is not None and not raises:
+            # run(inputs=X, before=B): per the documentation X is queued first, then B is executed as an execution of
+            # its own, then the code.  Same for every view: [set the inputs; execute B] (not observable from outside the
+            # call: hidden), then the code with nothing further to queue.
+            bev = []
+            for b in op["before"]:
+                bev.extend(norm_event(b))
+            out.append({"k": "exec", "kind": "run", "pre": flat.get("pre"), "events": bev, "raises": False,
+                        "student_file": op.get("student_file", True), "_hide": True})
+            flat["pre"] = None
         out.append(flat)
         if view == "model" and op.get("real_io") is not None:
             # Sandbox.run(real_io=True) for the model: run(inputs=<callable>) followed by clear_input(); the observation
@@ -884,7 +923,7 @@ def _dec_list(tok):
 
 def parse_model(ans, case=None):
     """-> (observations, contexts) in the shape of run_real, or None for bad-request"""
-    if case is not None and uses_tee(case):
+    if case is not None and (uses_tee(case) or uses_before(case)):
         m = parse_model(ans)
         if m is not None:
             hide = set(hidden_model_obs(case))
@@ -1022,6 +1061,8 @@ def expected(case, default=DEFAULT, view="oracle"):
             queue = list(queue) + [str(v) for v in op["items"]]
         elif k == "clear_input":
             fn, queue = None, []
+        if op.get("_hide") and op.get("real_io") is None:
+            continue                # the `before=` execution of a run(): nothing is observed between it and the code
         out.append({"raw": raw, "lines": list(lines), "queue": None if fn is not None else list(queue),
                     "nctx": len(records), "record": records[-1] if records else None, "returned": returned})
     return out, records
